@@ -131,3 +131,6 @@ def generate(ck):
     ck.coverage["translator_notes"] = notes
     ck.c15_tables = tabs
     return {"Networks_gen.v": "\n".join(out) + "\n"}
+
+
+GENERATE = [generate]
